@@ -309,6 +309,10 @@ def _is_iterable_of_pairs(val: t.Any) -> tuple[bool, t.Any]:
     cls = val.__class__
     if not inspection.isiterabletype(cls) or inspection.ismappingtype(cls):
         return False, val
+    # A named tuple is a structured object: its members are field values,
+    #   even if the first one happens to be a two-element collection.
+    if inspection.isnamedtuple(cls):
+        return False, val
 
     if inspection.issequencetype(cls):
         peek = next(iter(val), ())
